@@ -106,8 +106,16 @@ func (m *MonC20) OnEvent(w *World, rec *StepRec) []*Violation {
 				}
 			}
 		}
+		for _, p := range rec.MixedPayloads {
+			k := pkey(pb.EntryNormal, p)
+			m.known[k] = true
+			if pre.State == raft.StateLeader && rec.OpErr == nil {
+				m.handed[k]++
+				acceptedPayloads = append(acceptedPayloads, k)
+			}
+		}
 		if pre.State == raft.StateLeader && rec.OpErr == nil {
-			acceptedHere = len(rec.PropPayloads)
+			acceptedHere = len(rec.PropPayloads) + len(rec.MixedPayloads)
 		}
 		if rec.OpErr != nil && log.Last() != rec.PreLog.Last() {
 			out = append(out, &Violation{"C20", "dropped-means-dropped", fmt.Sprintf("node %d returned %v for a proposal but its log grew from %d to %d", n.ID, rec.OpErr, rec.PreLog.Last(), log.Last())})
